@@ -11,7 +11,7 @@ mkdir -p work
 CHECKS="C01 C02 C03 C04 C05 C06 C07 C08 C09 C10 C11 C12 C13 C14 C15 C16 C17 C18 C19 C20"
 for seed in $CHECKS; do
   git -C "$REPO_COPY" checkout -q -- . 
-  git -C "$REPO_COPY" apply "seeded/$seed/patch.diff" || { echo "$seed patch failed"; continue; }
+  git -C "$REPO_COPY" apply "$PWD/seeded/$seed/patch.diff" || { echo "$seed patch failed"; continue; }
   for c in ${MATRIX_CHECKS:-$CHECKS}; do
     timeout 3600 ./check $c --tier quick > work/m_${seed}_$c.log 2>&1
     rc=$?
